@@ -1764,6 +1764,11 @@ where
             // CharacterEscape :: IdentityEscape :: [+UnicodeMode] /
             '^' | '$' | '\\' | '.' | '*' | '+' | '?' | '(' | ')' | '[' | ']' | '{' | '}' | '|'
             | '/' => Ok(c),
+            // CharacterEscape :: IdentityEscape :: SourceCharacterIdentityEscape[+NamedCaptureGroups]
+            // excludes `k`: once the pattern has a named group, \k is only a named reference.
+            'k' if !self.flags.unicode && !self.named_group_indices.is_empty() => {
+                error("Invalid character escape")
+            }
             // CharacterEscape :: IdentityEscape :: SourceCharacterIdentityEscape
             _ if !self.flags.unicode => Ok(c),
             _ => error("Invalid character escape"),
